@@ -170,17 +170,16 @@ def part_paths(chk, tier, only=None):
 DEFS_B = COQ_LISTS_UPTO + """
 Definition universe : list str := %(universe)s.
 Definition ser_outcome (o : outcome) : list N :=
-  match o with Done => [0] | ConflictAt n => 1 :: ser_str n | FileExistsAt n => 2 :: ser_str n end.
+  match o with Done => [0] | ConflictAt n => 1 :: ser_str n end.
 Definition ser_dest (out : list str) (e : option entry) : list N :=
   match e with None => [0] | Some (Link t) => 1 :: ser_list ser_str (link_dest out t) | Some Other => [2] end.
 Definition ser_text (e : option entry) : list N :=
   match e with None => [0] | Some (Link t) => 1 :: ser_str (show_rel t) | Some Other => [2] end.
-Definition mkfs (dirs nonempty existing : list (list str)) : fs :=
-  {| fs_is_dir := fun p => mem_path p dirs; fs_nonempty := fun p => mem_path p nonempty;
-     fs_exists := fun p => mem_path p existing |}.
-Definition scen (f : fs) (out : list str) (deps : list (ident * list str)) (pre : option dirmap)
+Definition mkfs (dirs nonempty : list (list str)) : fs :=
+  {| fs_is_dir := fun p => mem_path p dirs; fs_nonempty := fun p => mem_path p nonempty |}.
+Definition scen (f : fs) (co out : list str) (deps : list (ident * list str)) (pre : option dirmap)
            (names : list str) : list N :=
-  let r := combine_step f out deps pre in
+  let r := combine_step f co out deps pre in
   [pack (ser_outcome (fst r) ++ flat_map (fun n => ser_dest out (lookup n (snd r))) names);
    pack (flat_map (fun n => ser_text (lookup n (snd r))) names)].
 """
@@ -204,7 +203,7 @@ def scen_expr(obs):
     deps = clist(["(%s, %s)" % (cident(d["pkg"], d["name"]), cpath(d["dir"])) for d in obs["deps"]])
     pre = "None" if obs["pre"] is None else "(Some %s)" % clist(["(%s, %s)" % (cstr(n), centry(e, obs)) for n, e in sorted(obs["pre"].items())])
     names = "universe" if obs.get("names") is None else clist([cstr(n) for n in obs["names"]])
-    return "scen (mkfs %s %s %s) %s %s %s %s" % (cpaths(obs["dirs"]), cpaths(obs["nonempty"]), cpaths(obs["existing"]), cpath(obs["out"]), deps, pre, names)
+    return "scen (mkfs %s %s) %s %s %s %s %s" % (cpaths(obs["dirs"]), cpaths(obs["nonempty"]), cpath(obs["co"]), cpath(obs["out"]), deps, pre, names)
 
 
 def obs_pack(obs):
@@ -228,6 +227,18 @@ def obs_pack(obs):
             nums += [2]
             text += [2]
     return [pack(nums), pack(text)]
+
+
+def own_form(text, out_dir, cond_out, name):
+    """is the link text one Conductor makes for a dependency of that name: it leads (lexically) to <name>.task or
+    <name>.task.<something> strictly inside cond-out -- an independent statement of the rule of the property
+    ("an entry that is not a link Conductor made is reported as an error rather than overwritten")"""
+    dest = os.path.normpath(os.path.join(out_dir, text))
+    co = os.path.normpath(cond_out)
+    if not dest.startswith(co + os.sep):
+        return False
+    b = os.path.basename(dest)
+    return b == name + ".task" or b.startswith(name + ".task.")
 
 
 class StepImpl:
@@ -300,7 +311,7 @@ class StepImpl:
             "deps": [{"pkg": d["pkg"], "name": d["name"], "dir": d["dir"]} for d in sc["deps"]],
             "dirs": [d for d in dep_dirs if os.path.isdir(P(d))],
             "nonempty": [d for d in dep_dirs if is_nonempty_dir(P(d))],
-            "existing": existing_paths(top),
+            "co": ["r", "cond-out"],
             "top": top,
             "pre": None if sc["pre"] is None else {n: (("l", e[1]) if e[0] == "l" else ("o",)) for n, e in sc["pre"].items()},
         }
@@ -310,7 +321,9 @@ class StepImpl:
             deps_output_paths=[(self.T(pathlib.Path(*d["pkg"]), d["name"]), pathlib.Path(P(d["dir"]))) for d in sc["deps"]],
         )
         try:
-            op.start_execution(None, None)
+            import types
+
+            op.start_execution(types.SimpleNamespace(output_path=pathlib.Path(P(["r", "cond-out"]))), None)
             outcome = ("done",)
         except self.Conflict as ex:
             outcome = ("conflict", os.path.basename(ex.output_file))
@@ -333,12 +346,15 @@ class StepImpl:
                     verdicts.append("no link %r for a dependency with a non-empty output directory" % d["name"])
                 elif os.path.realpath(q) != os.path.realpath(P(d["dir"])):
                     verdicts.append("entry %r resolves to %r, the dependency's directory is %r" % (d["name"], os.path.realpath(q)[len(real_top):], abs_str(d["dir"])))
-            if wanted and before is not None and before[0] in ("file", "dir"):
+            if wanted and before is not None and (before[0] in ("file", "dir") or (before[0] == "l" and not own_form(before[1], out, P(["r", "cond-out"]), d["name"]))):
+                what = "non-link entry" if before[0] != "l" else "symbolic link %r that Conductor did not make" % before[1]
                 if outcome[0] == "done":
-                    verdicts.append("non-link entry %r in the way but the operation reported success" % d["name"])
+                    verdicts.append("%s under %r in the way but the operation reported success" % (what, d["name"]))
                 kind_now = "l" if os.path.islink(q) else ("file" if os.path.isfile(q) else ("dir" if os.path.isdir(q) else "gone"))
-                if kind_now != before[0]:
-                    verdicts.append("non-link entry %r (%s) was replaced (%s)" % (d["name"], before[0], kind_now))
+                if kind_now != before[0] or (before[0] == "l" and os.readlink(q) != before[1]):
+                    verdicts.append("%s under %r was replaced (%s)" % (what, d["name"], kind_now))
+            if wanted and before is not None and before[0] == "l" and own_form(before[1], out, P(["r", "cond-out"]), d["name"]) and outcome != ("done",) and outcome[1] == d["name"]:
+                verdicts.append("a link of Conductor's own form (%r) under %r made the operation fail: %r" % (before[1], d["name"], outcome))
         for n in UNIVERSE:
             if n in names:
                 continue
@@ -351,16 +367,24 @@ class StepImpl:
 
 
 DEP_STATES = ["nonempty", "empty", "missing", "file", "symlink"]
-PRE_STATES = ["nodir", "none", "live_dir", "live_file", "dangling", "file", "dir"]
+# live_dir / live_file / dangling: SOMEBODY ELSE'S links (they lead outside cond-out): a conflict since D28;
+# own_old / own_gone: links of the form Conductor makes (to <name>.task.<v> inside cond-out), the second one dangling:
+# both are replaced (D27)
+PRE_STATES = ["nodir", "none", "live_dir", "live_file", "dangling", "own_old", "own_gone", "file", "dir"]
 
 
 def dep_dir(pkg, name, ts=None):
     return ["r", "cond-out"] + pkg + [name + ".task" + ("" if ts is None else ".%d" % ts)]
 
 
-def pre_entry(kind, out):
-    """(entry, extra paths to create) for a pre-existing entry of the given kind in directory out"""
+def pre_entry(kind, out, name="a"):
+    """(entry, extra paths to create) for a pre-existing entry of the given kind, under `name`, in directory out"""
     up = [".."] * (len(out) - 1)  # from out up to "r"
+    up_co = [".."] * (len(out) - 2)  # from out up to "r/cond-out"
+    if kind == "own_old":
+        return ("l", "/".join(up_co + ["zz", name + ".task.3"])), [(["r", "cond-out", "zz", name + ".task.3"], "dir")]
+    if kind == "own_gone":
+        return ("l", "/".join(up_co + ["zz", name + ".task.4"])), []
     if kind == "live_dir":
         return ("l", "/".join(up + ["old", "v1"])), [(["r", "old", "v1"], "dir")]
     if kind == "live_file":
@@ -385,7 +409,7 @@ def exhaustive_scenarios():
                     elif pre == "none":
                         sc["pre"] = {}
                     else:
-                        e, extra = pre_entry(pre, out)
+                        e, extra = pre_entry(pre, out, "a")
                         sc["pre"] = {"a": e}
                         sc["extra"] = extra
                     scs.append(sc)
@@ -419,8 +443,8 @@ def random_scenario(rng):
             q = rng.random()
             if q < 0.45:
                 continue
-            kind = rng.choice(["live_dir"] * 4 + ["live_file", "dangling", "file", "dir"])
-            e, extra = pre_entry(kind, out)
+            kind = rng.choice(["own_old"] * 4 + ["own_gone", "own_gone", "live_dir", "live_file", "dangling", "file", "dir"])
+            e, extra = pre_entry(kind, out, nm)
             sc["pre"][nm] = e
             sc["extra"] += extra
     return sc
@@ -516,7 +540,7 @@ def gen_steps(rng, tasks, n):
         else:
             c = rng.choice(combines)
             d = rng.choice(c.deps)
-            how = rng.choice(["file", "dir", "dangling"])
+            how = rng.choice(["file", "dir", "dangling", "foreign", "own_dangling", "own_dangling"])
             steps.append({"op": "obstruct", "combine": c.id, "dep": d.name, "how": how})
             steps.append({"op": "run", "target": rng.choice(["//:all", c.id]), "again": rng.random() < 0.5})
             steps.append({"op": "clear", "combine": c.id, "dep": d.name})
@@ -577,13 +601,24 @@ def run_e2e_case(chk, tasks, steps, label, defs_obs):
                     shutil.rmtree(q)
                 else:
                     os.unlink(q)
-            if st["how"] == "file":
+            how = st["how"]
+            dep_t = [x for x in c.deps if x.name == st["dep"]][0]
+            if how == "own_dangling" and dep_t.kind != "exp":
+                how = "foreign"            # only an experiment has versions that can be gone
+            if how == "file":
                 open(q, "w").close()
-            elif st["how"] == "dir":
+            elif how == "dir":
                 os.makedirs(q)
+            elif how == "dangling":
+                os.symlink("../nowhere", q)                      # somebody else's link, leading nowhere
+            elif how == "foreign":
+                os.makedirs(os.path.join(root, "elsewhere"), exist_ok=True)
+                os.symlink(os.path.relpath(os.path.join(root, "elsewhere"), d), q)   # somebody else's link, alive
             else:
-                os.symlink("../nowhere", q)
-            obstructed[c.id] = (st["dep"], st["how"])
+                # a link of Conductor's own form whose version is gone (removed by hand, an interrupted clean)
+                os.symlink(os.path.relpath(os.path.join(root, out_rel(dep_t.pkg, dep_t.name, 1)), d), q)
+            if how != "own_dangling":
+                obstructed[c.id] = (st["dep"], how)
             continue
         if st["op"] == "clear":
             c = byid[st["combine"]]
@@ -639,7 +674,7 @@ def run_e2e_case(chk, tasks, steps, label, defs_obs):
                     changed = True
         expect_fail = target.id in blocked
         if expect_fail and res.code == 0:
-            bad("an entry that is not a live link is in the way of %s but `cond %s` exited 0" % (sorted(blocked), " ".join(argv)), si, impl_observation={"exit": res.code})
+            bad("an entry that is not a link Conductor made is in the way of %s but `cond %s` exited 0" % (sorted(blocked), " ".join(argv)), si, impl_observation={"exit": res.code})
         if not expect_fail and res.code != 0:
             bad("`cond %s` failed (exit %d) with nothing in the way: %s" % (" ".join(argv), res.code, (res.err or res.out)[-300:]), si, impl_observation={"exit": res.code, "stderr": res.err[-1000:]})
             continue
@@ -664,7 +699,7 @@ def run_e2e_case(chk, tasks, steps, label, defs_obs):
                 q = os.path.join(cdir, dep.name)
                 if eo and eo[0] == dep.name:
                     # must be left as it was placed
-                    kind = "dangling" if os.path.islink(q) and not os.path.exists(q) else ("l" if os.path.islink(q) else ("file" if os.path.isfile(q) else ("dir" if os.path.isdir(q) else "gone")))
+                    kind = "dangling" if os.path.islink(q) and not os.path.exists(q) else ("foreign" if os.path.islink(q) else ("file" if os.path.isfile(q) else ("dir" if os.path.isdir(q) else "gone")))
                     if kind != eo[1]:
                         bad("entry %s/%s placed as %s is now %s" % (c.id, dep.name, eo[1], kind), si)
                     checked += 1
@@ -702,11 +737,11 @@ def run_e2e_case(chk, tasks, steps, label, defs_obs):
                 "deps": [{"pkg": [x for x in d.pkg.split("/") if x], "name": d.name, "dir": rel(selected_dir(d))} for d in c.deps if selected_dir(d) is not None],
                 "dirs": [rel(selected_dir(d)) for d in c.deps if selected_dir(d) is not None and os.path.isdir(selected_dir(d))],
                 "nonempty": [rel(selected_dir(d)) for d in c.deps if selected_dir(d) is not None and is_nonempty_dir(selected_dir(d))],
-                "existing": dirs_all,
+                "co": rel(os.path.join(root, "cond-out")),
                 "top": base,
                 "pre": ({n: ((e[0], e[1]) if e[0] == "l" else ("o",)) for n, e in pre[c.id].items()} if pre_exists[c.id] else None),
                 "post": {n: ((e[0], e[1]) if e[0] == "l" else ("o",)) for n, e in post.items()},
-                "outcome": ("done",) if not eo else (("conflict", eo[0]) if eo[1] in ("file", "dir") else ("fileexists", eo[0])),
+                "outcome": ("done",) if not eo else ("conflict", eo[0]),
             }
             allnames = sorted(set(list(pre[c.id].keys()) + list(post.keys()) + [d.name for d in c.deps]))
             # after an error only the entry in the way and the entries of no dependency are compared (which
